@@ -31,7 +31,7 @@ def diff_fields(a, b):
     return [names[i] for i in range(min(len(a), len(b))) if a[i] != b[i]] or ['shape']
 
 
-def check_call(c, m, call, hist, before=None):
+def check_call(c, m, call, hist, before=None, float_heights=False):
     """Apply `call` to implementation c and model m (both mutated).  Returns (violations, status) with
     status in ok / refused / truncated:<why>."""
     op = call[0]
@@ -40,9 +40,11 @@ def check_call(c, m, call, hist, before=None):
     if before is None:
         before = hjimpl.snapshot(c, full=True)
     lvl0 = LEVEL.get(stage0, -1)
-    r = hjimpl.apply(c, call)
+    r = hjimpl.apply(c, call, float_heights)
     out = []
     case = {'kind': 'history', 'bibs': list(m.order), 'calls': [enc(x) for x in hist] + [enc(call)]}
+    if float_heights:
+        case['float_heights'] = True
     if r[0] == 'refused':
         if r[1] != 'RuleViolation':
             out.append(V('refusal-raises-RuleViolation', ['refusal-type', r[1], op], case, r))
@@ -111,9 +113,10 @@ def replay(case, on_state=None):
     """Re-execute a stored history from scratch; returns all violations met (plain calls, no generator)."""
     c, m, hist = start(case['bibs'])
     out = []
+    fh = bool(case.get('float_heights'))
     for raw in case['calls'][len(case['bibs']):]:
         call = dec(raw)
-        vs, status = check_call(c, m, call, hist)
+        vs, status = check_call(c, m, call, hist, None, fh)
         out.extend(vs)
         if status.startswith('truncated'):
             break
